@@ -598,6 +598,25 @@ def gen_trace_header(self, index, load_all_headers=False):
                 header[k] = np.frombuffer(buf, dtype=np.int32)[0]
     return header
 '''
+# the D42 repair: header words that alias one stored array are read once per call (same value either way)
+T_RD_GEN_MEMO = '''
+def gen_trace_header(self, index, load_all_headers=False):
+    if not H_guard:
+        raise IndexError(self.range_error.format(index, 0, self.tracecount))
+    header = self.segy_traceheader_template.copy()
+    words = {}
+    for k, v in header.items():
+        if isinstance(v, FileOffset):
+            if H_viaarrays:
+                self._load_variant_headers(False)
+                header[k] = self.variant_headers[k][index]
+            else:
+                if v not in words:
+                    buf = self.file.read_range(self.file, H_wordoff, H_wordlen)
+                    words[v] = np.frombuffer(buf, dtype=np.int32)[0]
+                header[k] = words[v]
+    return header
+'''
 T_RD_VARIANT = '''
 def read_variant_headers(self, include_padding=False, tracefields=None):
     if self.include_padding is None:
@@ -909,7 +928,10 @@ def generate(srcdir):
             raise GenFail(f'SgzReader.__init__: {tgt} assigned {n} times')
     dc = match_function(rd, R + '_decode_traceheader_template', T_RD_DECODE)
     sz = match_function(rd, R + '_parse_data_sizes', T_RD_SIZES)
-    gn = match_function(rd, R + 'gen_trace_header', T_RD_GEN)
+    try:
+        gn = match_function(rd, R + 'gen_trace_header', T_RD_GEN_MEMO)
+    except GenFail:
+        gn = match_function(rd, R + 'gen_trace_header', T_RD_GEN)
     vh = match_function(rd, R + 'read_variant_headers', T_RD_VARIANT)
     match_function(rd, R + '_load_variant_headers', T_RD_LOAD)     # = read_variant_headers(include_padding, tracefields) on a
     match_function(rd, R + 'clear_variant_headers', T_RD_CLEAR)    # cache that holds arrays of that padding mode only
